@@ -460,6 +460,32 @@ class Plan:
             cases = [self.new_case(r, vs, cfg, script, f"cfg:{lab}") for lab, cfg in cfgs]
             self.add_group("C09", cases, "config_matrix")
 
+    # -- B2: sorted(name) / sorted(value) must not change behaviour either (C09)
+    def sorted_cfgs(self, n_decls):
+        rng = self.rng
+        for i in range(n_decls):
+            r = rng.choice(["i8", "i16", "u8", "i64", "u32"])
+            lo = -60 if prim.signed(r) else 0
+            reals = sorted(rng.sample(range(lo, lo + 120), rng.choice([3, 4, 6, 9])))
+            gapless = runs_of(reals) == 1
+            p = prim.Proj(r)
+            probes = sorted({p.to_model(x + d) for x in reals for d in (-1, 0, 1) if prim.tmin(r) <= x + d <= prim.tmax(r)})
+            for which in ("name", "value"):
+                # declaration order: by value for sorted(value); shuffled values under ascending names for sorted(name)
+                vs = decorate(reals, r, rng, "ident", "asc" if which == "value" else "shuffle", "dec")
+                names = sorted(rng.sample(["Aa", "Ab", "B", "Ba", "C", "D", "Da", "E", "Zz", "a", "ab", "b", "z", "é"], len(vs)))
+                for v, nm in zip(vs, names):
+                    v["ident"] = "V" + str(vs.index(v))
+                    v["rename"] = nm
+                script = make_script(vs, r, probes, rng, level="light")
+                cases = []
+                for lab, cfg in kappa_list(gapless)[:4]:
+                    cases.append(self.new_case(r, vs, cfg, script, f"sorted:{lab}:plain"))
+                    c2 = dict(cfg)
+                    c2["sorted"] = [which] if rng.random() < 0.7 or which == "name" else ["value"]
+                    cases.append(self.new_case(r, vs, c2, script, f"sorted:{lab}:{which}"))
+                self.add_group("C09", cases, "sorted_cfgs")
+
     # -- C: permutations of the declaration order and admissible reprs (C18)
     def perms_reprs(self, n_maps):
         rng = self.rng
@@ -553,6 +579,23 @@ class Plan:
                 cases = [self.new_case(r, vs, cfg, script, f"ctx:{lab}:{c}", ctx=c) for c in cx.ORDER]
                 self.add_group("C16", cases, "contexts")
 
+    # -- E2: hostile scopes on TLC shapes with many runs (C16)
+    def contexts_on_shapes(self, reprs, per_repr):
+        import contexts as cx
+        rng = self.rng
+        for r in reprs:
+            cs = stimuli.corpus_sets(r)
+            p = prim.Proj(r)
+            many = sorted(cs["cases"], key=lambda c: (-c["runs"], len(c["s"])))[:40]
+            for c in rng.sample(many, min(per_repr, len(many))):
+                reals = [p.to_real(m) for m in c["s"]]
+                vs = decorate(reals, r, rng, "renames", "shuffle", "dec")
+                script = make_script(vs, r, c["probes"], rng, level="light", str_cap=10, pairs_cap=8)
+                for lab, cfg in rng.sample(kappa_list(False)[:6], 2):
+                    ctxs = ["plain"] + rng.sample([x for x in cx.ORDER if x != "plain"], 3)
+                    cases = [self.new_case(r, vs, cfg, script, f"ctxshape:{lab}:{x}", ctx=x) for x in ctxs]
+                    self.add_group("C16", cases, "contexts")
+
     # -- H: renamed items (C15): behaviour through the requested names equals behaviour through the defaults
     def renamed(self):
         rng = self.rng
@@ -597,6 +640,10 @@ class Plan:
             ks = kappa_list(gapless)
             cases = [self.new_case(r, vs, cfg, script, f"large{len(reals)}:{lab}") for lab, cfg in (ks[:3] if len(reals) < 1000 else ks[1:3])]
             self.add_group("C09", cases, "large")
+            # the same enum in hostile scopes (C16): scope slips may hide in shape-specific branches of the generated code
+            lab, cfg = ks[1] if len(reals) % 2 else ks[2]
+            twins = [self.new_case(r, vs, cfg, script, f"ctxlarge{len(reals)}:{lab}:{c}", ctx=c) for c in ("plain", "no_prelude", "all_types", "all_traits")]
+            self.add_group("C16", twins, "contexts")
 
     def large(self, sizes):
         rng = self.rng
@@ -685,26 +732,34 @@ def build_plan(tier, seed):
         pl.shapes(reprs, per_repr_small=110, per_repr_large=25)
         pl.full_paths()
         pl.config_matrix(n_sparse=10)
+        pl.sorted_cfgs(6)
         pl.perms_reprs(30)
         pl.spellings(40)
         pl.contexts()
+        pl.contexts_on_shapes(["i8", "u64"], 4)
         pl.renamed()
         pl.large([60, 300, 1200])
         pl.large_fixed([("i8", list(range(-128, 128))), ("u8", list(range(0, 256))), ("i8", list(range(-100, 100))),
                         ("i8", [x for x in range(-128, 128) if x not in (-100, -99, 0, 50, 51, 52, 90, 120, 126)]),
-                        ("u8", [x for x in range(0, 256) if x % 37 != 5])])
+                        ("u8", [x for x in range(0, 256) if x % 37 != 5]),
+                        ("i16", list(range(-20, 280))), ("u16", [x for x in range(0, 310) if x != 100]),
+                        ("i16", [-300, -299, -100, -1, 0, 1, 7, 20, 21, 22, 100, 1000, 1001, 5000, 5002, 5004, 32767])])
     else:
         pl.shapes(prim.REPRS, per_repr_small=None, per_repr_large=400, kappas_per_shape=3)
         pl.full_paths()
         pl.config_matrix(n_sparse=60)
+        pl.sorted_cfgs(60)
         pl.perms_reprs(300)
         pl.spellings(300)
         pl.contexts()
+        pl.contexts_on_shapes(prim.REPRS, 10)
         pl.renamed()
         pl.large([60, 127, 250, 300, 700, 1200, 2000, 5000])
         pl.large_fixed([("i8", list(range(-128, 128))), ("u8", list(range(0, 256))), ("i8", list(range(-100, 100))),
                         ("i8", [x for x in range(-128, 128) if x not in (-100, -99, 0, 50, 51, 52, 90, 120, 126)]),
                         ("u8", [x for x in range(0, 256) if x % 37 != 5]),
+                        ("i16", list(range(-20, 280))), ("u16", [x for x in range(0, 310) if x != 100]),
+                        ("i16", [-300, -299, -100, -1, 0, 1, 7, 20, 21, 22, 100, 1000, 1001, 5000, 5002, 5004, 32767]),
                         ("i64", list(range(-9223372036854775808, -9223372036854775808 + 3000)))])
     return pl
 
